@@ -1,5 +1,6 @@
 import S3V.Model.Xml
 import S3V.Thm.XmlStrict
+import S3V.Spec.Xml
 /-!
 # C13 — comments the tokeniser hands out are well-formed (XML 1.0 production [15])
 
@@ -165,40 +166,57 @@ theorem markup_comment {inp : Bytes} {stack stack' : List Bytes} {rest : Bytes}
     all_goals no_comment h
   all_goals no_comment h
 
-/-! ### a reader error ends every run -/
+/-! ### a reader error and a refused processing instruction end every run -/
 
-/-- a reader error anywhere in the token sequence: `read_event` iterated ends with an error event -/
-theorem deEventsAt_err : ∀ (q : List QEv) (d : Nat), QEv.err ∈ q → ∃ l e, deEventsAt d q = l ++ [.bad e]
+/-- tokens at which `read_event` returns an error whatever the depth: a reader error, and (since the repair of
+`xml-illformed-accepted:pi-target`) a processing instruction with an illegal target -/
+def QEv.stopsRun : QEv → Bool
+  | .err => true
+  | .pi c => !piTargetOk c
+  | _ => false
+
+/-- such a token anywhere in the token sequence: `read_event` iterated ends with an error event -/
+theorem deEventsAt_stops : ∀ (q : List QEv) (d : Nat), q.any QEv.stopsRun = true → ∃ l e, deEventsAt d q = l ++ [.bad e]
   | [], _, h => by simp at h
   | t :: q, d, h => by
-    have ih : QEv.err ∈ q → ∀ d', ∃ l e, deEventsAt d' q = l ++ [.bad e] := fun hq d' => deEventsAt_err q d' hq
+    have ih : q.any QEv.stopsRun = true → ∀ d', ∃ l e, deEventsAt d' q = l ++ [.bad e] :=
+      fun hq d' => deEventsAt_stops q d' hq
+    simp only [List.any_cons, Bool.or_eq_true] at h
     cases t with
     | err => exact ⟨[], .invalidXml, by simp [deEventsAt]⟩
     | start n r =>
-      obtain ⟨l, e, hl⟩ := ih (by simpa using h) (d + 1)
+      obtain ⟨l, e, hl⟩ := ih (by simpa [QEv.stopsRun] using h) (d + 1)
       exact ⟨.start n r :: l, e, by simp [deEventsAt, hl]⟩
     | stop n =>
-      obtain ⟨l, e, hl⟩ := ih (by simpa using h) (d - 1)
+      obtain ⟨l, e, hl⟩ := ih (by simpa [QEv.stopsRun] using h) (d - 1)
       exact ⟨.stop n :: l, e, by simp [deEventsAt, hl]⟩
     | empty n r =>
-      obtain ⟨l, e, hl⟩ := ih (by simpa using h) d
+      obtain ⟨l, e, hl⟩ := ih (by simpa [QEv.stopsRun] using h) d
       exact ⟨.start n r :: .stop n :: l, e, by simp [deEventsAt, hl]⟩
     | text raw =>
-      obtain ⟨l, e, hl⟩ := ih (by simpa using h) d
+      obtain ⟨l, e, hl⟩ := ih (by simpa [QEv.stopsRun] using h) d
       by_cases hc : d = 0 ∧ raw.all isWs = false
       · exact ⟨[], .invalidContent, by simp [deEventsAt, hc]⟩
       · by_cases hce : hasCdataEnd raw = true
         · exact ⟨[], .invalidContent, by simp [deEventsAt, hc, hce]⟩
         · exact ⟨.text raw :: l, e, by simp only [deEventsAt, if_neg hc, if_neg hce, hl, List.cons_append]⟩
     | cdata c =>
-      obtain ⟨l, e, hl⟩ := ih (by simpa using h) d
+      obtain ⟨l, e, hl⟩ := ih (by simpa [QEv.stopsRun] using h) d
       by_cases hc : d = 0
       · exact ⟨[], .invalidContent, by simp [deEventsAt, hc]⟩
       · exact ⟨.cdata c :: l, e, by simp only [deEventsAt, if_neg hc, hl, List.cons_append]⟩
-    | comment => obtain ⟨l, e, hl⟩ := ih (by simpa using h) d; exact ⟨l, e, by simp [deEventsAt, hl]⟩
-    | decl => obtain ⟨l, e, hl⟩ := ih (by simpa using h) d; exact ⟨l, e, by simp [deEventsAt, hl]⟩
-    | pi => obtain ⟨l, e, hl⟩ := ih (by simpa using h) d; exact ⟨l, e, by simp [deEventsAt, hl]⟩
-    | doctype => obtain ⟨l, e, hl⟩ := ih (by simpa using h) d; exact ⟨l, e, by simp [deEventsAt, hl]⟩
+    | comment => obtain ⟨l, e, hl⟩ := ih (by simpa [QEv.stopsRun] using h) d; exact ⟨l, e, by simp [deEventsAt, hl]⟩
+    | decl => obtain ⟨l, e, hl⟩ := ih (by simpa [QEv.stopsRun] using h) d; exact ⟨l, e, by simp [deEventsAt, hl]⟩
+    | pi c =>
+      by_cases hc : piTargetOk c = true
+      · obtain ⟨l, e, hl⟩ := ih (by simpa [QEv.stopsRun, hc] using h) d
+        exact ⟨l, e, by simp [deEventsAt, hl, hc]⟩
+      · exact ⟨[], .invalidContent, by simp [deEventsAt, hc]⟩
+    | doctype => obtain ⟨l, e, hl⟩ := ih (by simpa [QEv.stopsRun] using h) d; exact ⟨l, e, by simp [deEventsAt, hl]⟩
+
+/-- a reader error anywhere in the token sequence: `read_event` iterated ends with an error event -/
+theorem deEventsAt_err (q : List QEv) (d : Nat) (h : QEv.err ∈ q) : ∃ l e, deEventsAt d q = l ++ [.bad e] :=
+  deEventsAt_stops q d (List.any_eq_true.mpr ⟨.err, h, rfl⟩)
 
 /-- the last event of an accepted document is the end tag of the root or a white-space text behind it -/
 theorem decodeDoc_named_last (X : Ext) {root : Bytes} {s : Sch} {q : List QEv} {v : Val}
@@ -226,19 +244,81 @@ theorem decodeDoc_named_last (X : Ext) {root : Bytes} {s : Sch} {q : List QEv} {
     · rw [hys] at ht
       simpa using (List.all_eq_true.mp ht) ev (by simp)
 
+/-- **an accepted document has no token at which `read_event` fails** -/
+theorem decodeDoc_named_no_stop (X : Ext) {root : Bytes} {s : Sch} {q : List QEv} {v : Val}
+    (h : decodeDoc X (.named root) s (deEvents q) = .ok v) : q.any QEv.stopsRun = false := by
+  cases hs : q.any QEv.stopsRun with
+  | false => rfl
+  | true =>
+    obtain ⟨l, e, hl⟩ := deEventsAt_stops q 0 hs
+    obtain ⟨ev, hlast, hev⟩ := decodeDoc_named_last X h
+    have : (deEvents q).getLast? = some (.bad e) := by
+      show (deEventsAt 0 q).getLast? = _
+      rw [hl, List.getLast?_concat]
+    rw [this] at hlast
+    cases hlast
+    rcases hev with hev | hev
+    · cases hev
+    · simp [Ev.isWsText] at hev
+
 /-- **an accepted document has no reader error anywhere**: every `<` of it opened a construct the tokeniser took -/
 theorem decodeDoc_named_no_err (X : Ext) {root : Bytes} {s : Sch} {q : List QEv} {v : Val}
     (h : decodeDoc X (.named root) s (deEvents q) = .ok v) : QEv.err ∉ q := by
   intro herr
-  obtain ⟨l, e, hl⟩ := deEventsAt_err q 0 herr
-  obtain ⟨ev, hlast, hev⟩ := decodeDoc_named_last X h
-  have : (deEvents q).getLast? = some (.bad e) := by
-    show (deEventsAt 0 q).getLast? = _
-    rw [hl, List.getLast?_concat]
-  rw [this] at hlast
-  cases hlast
-  rcases hev with hev | hev
-  · cases hev
-  · simp [Ev.isWsText] at hev
+  have := decodeDoc_named_no_stop X h
+  rw [List.any_eq_true.mpr ⟨.err, herr, rfl⟩] at this
+  cases this
+
+/-! ### processing instructions (XML 1.0 productions [16], [17]) -/
+
+/-- [16] PI, on the text between `<?` and `?>`: a target that is a Name — the specification's `XmlSpec.isName` —
+other than `xml` in any case, then nothing or white space and the rest -/
+def PiBody (c : Bytes) : Prop :=
+  ∃ target rest, c = target ++ rest ∧ XmlSpec.isName target = true ∧
+    (rest = [] ∨ ∃ w r, rest = w :: r ∧ XmlSpec.isS w = true) ∧
+    target.map XmlSpec.lowerAscii ≠ [120, 109, 108]
+
+theorem isXmlName_eq (t : Bytes) : isXmlName t = XmlSpec.isName t := by
+  cases t with
+  | nil => rfl
+  | cons c cs => rfl
+
+theorem toLowerAscii_eq (b : UInt8) : toLowerAscii b = XmlSpec.lowerAscii b := by
+  simp [toLowerAscii, XmlSpec.lowerAscii]
+
+theorem isWs_eq_isS (b : UInt8) : isWs b = XmlSpec.isS b := by
+  simp only [isWs, XmlSpec.isS]
+  cases decide (b = 32) <;> cases decide (b = 13) <;> cases decide (b = 10) <;> cases decide (b = 9) <;> rfl
+
+/-- the model's test on a processing instruction is what the specification demands of it -/
+theorem piTargetOk_body {c : Bytes} (h : piTargetOk c = true) : PiBody c := by
+  simp only [piTargetOk, Bool.and_eq_true, Bool.not_eq_true', beq_eq_false_iff_ne, ne_eq] at h
+  obtain ⟨hname, hxml⟩ := h
+  refine ⟨nameOf c, c.dropWhile (fun b => !isWs b), ?_, ?_, ?_, ?_⟩
+  · simp [nameOf, List.takeWhile_append_dropWhile]
+  · rw [← isXmlName_eq]; exact hname
+  · have hd := List.head?_dropWhile_not (fun b => !isWs b) c
+    cases hr : c.dropWhile (fun b => !isWs b) with
+    | nil => exact Or.inl rfl
+    | cons w r =>
+      refine Or.inr ⟨w, r, rfl, ?_⟩
+      rw [hr] at hd
+      simp only [List.head?_cons, Bool.not_eq_false'] at hd
+      rw [← isWs_eq_isS]; simpa using hd
+  · intro heq
+    apply hxml
+    rw [← heq]
+    exact List.map_congr_left (fun b _ => toLowerAscii_eq b)
+
+/-- **every processing instruction of an accepted document is well-formed** -/
+theorem decodeDoc_named_pi (X : Ext) {root : Bytes} {s : Sch} {q : List QEv} {v : Val}
+    (h : decodeDoc X (.named root) s (deEvents q) = .ok v) {c : Bytes} (hc : QEv.pi c ∈ q) : PiBody c := by
+  have hs := decodeDoc_named_no_stop X h
+  have : QEv.stopsRun (.pi c) = false := by
+    cases hp : QEv.stopsRun (.pi c) with
+    | false => rfl
+    | true => rw [List.any_eq_true.mpr ⟨.pi c, hc, hp⟩] at hs; cases hs
+  apply piTargetOk_body
+  simpa [QEv.stopsRun] using this
 
 end S3V.Xml
